@@ -27,6 +27,10 @@ static uint64_t g_time_ns = 0;
 static uint64_t g_calls_getrandom = 0;
 static uint64_t g_bytes_getrandom = 0;
 static uint64_t g_calls_clock = 0;
+/* per-thread fake time (takes precedence over the process-wide one): every simulated
+ * thread can carry the clock of the request it is serving, whatever the interleaving */
+static __thread int      t_time_set = 0;
+static __thread uint64_t t_time_ns = 0;
 
 static void seam_init(void) {
     if (g_init) return;
@@ -47,6 +51,8 @@ static uint64_t splitmix64(void) {
 void verif_seam_arm(uint64_t seed) { seam_init(); g_state = seed; g_armed = 1; }
 void verif_seam_disarm(void) { seam_init(); g_armed = 0; g_time_set = 0; }
 void verif_seam_set_time(uint64_t ns) { seam_init(); g_time_ns = ns; g_time_set = 1; }
+void verif_seam_set_thread_time(uint64_t ns) { seam_init(); t_time_ns = ns; t_time_set = 1; }
+void verif_seam_clear_thread_time(void) { t_time_set = 0; }
 /* out[0]=getrandom calls, out[1]=bytes served, out[2]=CLOCK_REALTIME reads while faked */
 void verif_seam_stats(uint64_t *out) { out[0] = g_calls_getrandom; out[1] = g_bytes_getrandom; out[2] = g_calls_clock; }
 int verif_seam_present(void) { return 1; }
@@ -69,9 +75,10 @@ ssize_t getrandom(void *buf, size_t len, unsigned int flags) {
 
 int clock_gettime(clockid_t clk, struct timespec *ts) {
     seam_init();
-    if (g_time_set && clk == CLOCK_REALTIME) {
-        ts->tv_sec = (time_t)(g_time_ns / 1000000000ULL);
-        ts->tv_nsec = (long)(g_time_ns % 1000000000ULL);
+    if ((t_time_set || g_time_set) && clk == CLOCK_REALTIME) {
+        uint64_t ns = t_time_set ? t_time_ns : g_time_ns;
+        ts->tv_sec = (time_t)(ns / 1000000000ULL);
+        ts->tv_nsec = (long)(ns % 1000000000ULL);
         g_calls_clock++;
         return 0;
     }
